@@ -214,6 +214,11 @@ pub(crate) fn dedupe_props(props: Vec<PropOrSpread>) -> Vec<PropOrSpread> {
     )
 }
 
+/// `"use strict";` and the like: an expression statement that is just a string literal
+pub(crate) fn is_directive_stmt(stmt: &Stmt) -> bool {
+    matches!(stmt, Stmt::Expr(ExprStmt { expr, .. }) if matches!(&**expr, Expr::Lit(Lit::Str(..))))
+}
+
 pub(crate) fn decouple_v_models(
     elems: Vec<Option<ExprOrSpread>>,
 ) -> impl Iterator<Item = JSXAttrOrSpread> {
